@@ -17,7 +17,7 @@ from sem.sx import dec_answer  # noqa: E402
 DIVZERO_CODES = {'2-1-15-6', '2-1-3-1'}
 
 
-class _TO(Exception):
+class _TO(KeyboardInterrupt):
     pass
 
 
@@ -50,6 +50,8 @@ def _run_one(args):
                 else:
                     res[name] = ('scalar', type(ds.data_type).__name__ if not isinstance(ds.data_type, type) else ds.data_type.__name__, _plain(eng.canon_value(ds.value)))
             return ('ok', res)
+        if out[0] == 'raw' and 'interrupted' in str(out[-1]).lower():
+            return ('timeout',)
         return out[:3] + (out[-1][:200],)
     except _TO:
         return ('timeout',)
